@@ -846,7 +846,8 @@ impl<'a> crate::ranger::Store<SignedEntry> for StoreInstance<'a> {
                 // iterator for entries from range.x to range.y
                 let start = Bound::Included(range.x().to_byte_tuple());
                 let end = Bound::Excluded(range.y().to_byte_tuple());
-                let bounds = RecordsBounds::new(start, end);
+                // the end points come from the remote peer: stay inside this replica's namespace
+                let bounds = RecordsBounds::new(start, end).within_namespace(&self.namespace);
                 let iter = RecordsRange::with_bounds(&tables.records, bounds)?;
                 chain_none(iter)
             }
@@ -854,12 +855,14 @@ impl<'a> crate::ranger::Store<SignedEntry> for StoreInstance<'a> {
             Ordering::Greater => {
                 // iterator for entries from start to range.y
                 let end = Bound::Excluded(range.y().to_byte_tuple());
-                let bounds = RecordsBounds::from_start(&self.namespace, end);
+                let bounds = RecordsBounds::from_start(&self.namespace, end)
+                    .within_namespace(&self.namespace);
                 let iter = RecordsRange::with_bounds(&tables.records, bounds)?;
 
                 // iterator for entries from range.x to end
                 let start = Bound::Included(range.x().to_byte_tuple());
-                let bounds = RecordsBounds::to_end(&self.namespace, start);
+                let bounds =
+                    RecordsBounds::to_end(&self.namespace, start).within_namespace(&self.namespace);
                 let iter2 = RecordsRange::with_bounds(&tables.records, bounds)?;
 
                 iter.chain(Some(iter2).into_iter().flatten())
